@@ -6,6 +6,7 @@ from fractions import Fraction
 
 from sa.model import AnalysisError, calls_in, kwarg
 from sa.symbolic import Poly, to_poly
+from sa.paths import function_paths, end_kind
 from sa.util import U, call_is, const_value
 
 EXPLANATION = (
@@ -101,16 +102,20 @@ def ev(e, env, one_d):
                 k = list(a.f)[0]
                 return Tensor({k: a.f[k] + b.f[k] if isinstance(e.op, ast.Add) else a.f[k] - b.f[k]})
             return None
+        def keep(t_new, src):
+            if hasattr(src, "order"):
+                t_new.order = src.order
+            return t_new
         if isinstance(e.op, ast.Mult):
             if not a.f:
-                return Tensor(b.f, b.s * a.s)
+                return keep(Tensor(b.f, b.s * a.s), b)
             if not b.f:
-                return Tensor(a.f, a.s * b.s)
+                return keep(Tensor(a.f, a.s * b.s), a)
             return None  # elementwise product of two axis vectors is not a measure
         if isinstance(e.op, ast.Div):
             if not b.f:
                 inv = b.s.inv()
-                return None if inv is None else Tensor(a.f, a.s * inv)
+                return None if inv is None else keep(Tensor(a.f, a.s * inv), a)
             return None
     return None
 
@@ -120,13 +125,17 @@ def tensor_product(parts):
         return None
     f = {}
     s = Poly.const(1)
+    order = []
     for p in parts:
         for k, v in p.f.items():
             if k in f:
                 return None
             f[k] = v
+        order += getattr(p, "order", sorted(p.f))
         s = s * p.s
-    return Tensor(f, s)
+    t = Tensor(f, s)
+    t.order = order      # the axes in the order the outer product lays them out (the result's array axes)
+    return t
 
 
 def eval_getter(fi, one_d):
@@ -175,6 +184,9 @@ def run(ctx):
             continue
         scal = t.s
         probs = []
+        lay = getattr(t, "order", sorted(fac))
+        if lay != sorted(lay):
+            probs.append(f"the outer product lays the axes out as {lay}: bin_sizes is transposed relative to frequencies")
         for k, wn in enumerate(want):
             expect = FACTORS[wn]
             got = fac[k] * scal if k == 0 else fac[k]
@@ -283,6 +295,29 @@ def run(ctx):
     g, e = getter_expr(HB, "errors")
     ctx.check(e is not None and U(e) in ("np.sqrt(self.errors2)", "np.sqrt(self._errors2)"), "C16.d", "HistogramBase.errors", "sqrt(errors2)",
               f"errors = {U(e) if e is not None else None}", g.where)
+
+    # 1-D per-axis accessors and the ND edge accessor (same algebra as the properties)
+    OWB = m.cls("ObjectWithBinning")
+    for nm, want in (("get_bin_left_edges", "self.bin_left_edges"), ("get_bin_right_edges", "self.bin_right_edges")):
+        f_ = OWB.methods.get(nm)
+        rets_ = [U(n.value) for n in ast.walk(f_.node) if isinstance(n, ast.Return)] if f_ else []
+        ctx.check(rets_ == [want], "C16.c", f"ObjectWithBinning.{nm}", f"returns {want}", f"{nm} returns {rets_}", f_.where if f_ else OWB.where)
+    for nm, want in (("bin_left_edges", "self.bins[..., 0]"), ("bin_right_edges", "self.bins[..., 1]"), ("min_edge", "self.bin_left_edges[0]"),
+                     ("max_edge", "self.bin_right_edges[-1]")):
+        g_ = OWB.getters.get(nm)
+        rets_ = [U(n.value) for n in ast.walk(g_.node) if isinstance(n, ast.Return)] if g_ else []
+        ctx.check(rets_ == [want], "C16.c", f"ObjectWithBinning.{nm}", f"= {want}", f"{nm} returns {rets_}", g_.where if g_ else OWB.where)
+    gbe = HN.methods.get("get_bin_edges")
+    tg_ = U(gbe.node)
+    okgbe = "return self.edges[self._get_axis(axis)]" in tg_ and "edges = [self.get_bin_edges(i) for i in range(self.ndim)]" in tg_ \
+        and "return np.meshgrid(*edges, indexing='ij')" in tg_
+    pol_ = {}
+    for p_ in function_paths(gbe.node):
+        cs_ = dict((U(s_[1]), s_[2]) for s_ in p_ if s_[0] == "cond")
+        if "axis is not None" in cs_ and end_kind(p_) == "return":
+            pol_[cs_["axis is not None"]] = "meshgrid" in U(p_[-1][2].value)
+    ctx.check(okgbe and pol_ == {True: False, False: True}, "C16.c", "HistogramND.get_bin_edges", "one axis: that axis' edges; no axis: the ij-mesh of all axes' edges",
+              f"get_bin_edges wiring changed (mesh returned per `axis is not None` decision: {pol_})", gbe.where)
 
     # ---- C16.e the binning objects the measures are read from belong to one histogram ------------------------------
     # edges, widths, bin_sizes and densities are recomputed from the binning objects on every access; a derived histogram
